@@ -30,6 +30,12 @@ OBLIGATIONS.append(dict(name="data_reader_copy", harness="harness/C19_data.c", s
     functions=["data_reader_copy, data_reader_destroy, sqfs_data_reader_create (lib/sqfs/src/data_reader.c)", "frag_table_copy, frag_table_destroy (lib/sqfs/src/frag_table.c)"],
     bound="reader built by the real constructor, block size 4, fragment table with one symbolic entry, data cache / fragment cache present or absent (symbolic), both release orders, leak check on"))
 
+OBLIGATIONS.append(dict(name="dir_reader_copy", harness="harness/C19_dirreader.c", sources=[], included_sources=["lib/sqfs/src/dir_reader.c"],
+    unwind=8, tiers=["quick", "thorough"], timeout=300, leak=True, fp_map={'destroy': ['mr_destroy'], 'copy': ['mr_copy']},
+    reach=["orig_first", "copy_first", "with_cache"],
+    functions=["dir_reader_copy, dir_reader_destroy (lib/sqfs/src/dir_reader.c)"],
+    bound="reader with/without SQFS_DIR_READER_DOT_ENTRIES, inode cache empty or populated (symbolic), both release orders; rbtree and metadata readers are identity-tracking contract stubs"))
+
 ASSUMPTIONS = ["allocation succeeds in these obligations (failure paths belong to C13)", "destroy/copy hooks are the ones of the object's kind (function pointer targets restricted per harness)"]
 OUTSIDE = ["compressor copies against the real codec libraries", "longer operation histories before the copy than the ones listed per obligation"]
 META = dict(
